@@ -127,7 +127,7 @@ func vTokenize(in []byte) []vTok {
 	}
 	out := make([]vTok, len(doc.Tokens))
 	for i, t := range doc.Tokens {
-		out[i] = vTok{d.getWord(t.ID), t.Line}
+		out[i] = vTok{d.getWord(t.ID), int(t.Line)} // conversions keep the harness compiling when a change retypes the field
 	}
 	return out
 }
@@ -141,7 +141,7 @@ func vTokenizeFull(in []byte) ([]vTok, Matches) {
 	}
 	out := make([]vTok, len(doc.Tokens))
 	for i, t := range doc.Tokens {
-		out[i] = vTok{d.getWord(t.ID), t.Line}
+		out[i] = vTok{d.getWord(t.ID), int(t.Line)} // conversions keep the harness compiling when a change retypes the field
 	}
 	return out, doc.Matches
 }
